@@ -40,7 +40,7 @@ fn base() -> (UnsealedState<InMemoryCas>, Transaction) {
 }
 
 fn scenario_names() -> Vec<&'static str> {
-    vec!["rivals", "faucet-twice", "chain", "chain-reversed", "shared-second-input", "independent", "faucet-spends-and-rival", "rivals-around-bystander", "two-mints", "two-mints-reversed"]
+    vec!["two-callers", "rivals", "faucet-twice", "chain", "chain-reversed", "shared-second-input", "independent", "faucet-spends-and-rival", "rivals-around-bystander", "two-mints", "two-mints-reversed"]
 }
 
 /// The batch of a scenario against `base()` (deterministic; proofs are real).
@@ -85,7 +85,14 @@ fn batch(name: &str, st: &UnsealedState<InMemoryCas>, fund: &Transaction) -> Vec
 
 fn digest(mut st: UnsealedState<InMemoryCas>, txs: &[Transaction]) -> String {
     rayon::SITE.store(0, Ordering::Relaxed);
-    let r = st.apply_tx_batch(txs);
+    let r = match std::panic::catch_unwind(std::panic::AssertUnwindSafe(|| st.apply_tx_batch(txs))) {
+        Ok(r) => r,
+        Err(e) => {
+            let msg = e.downcast_ref::<String>().cloned().or_else(|| e.downcast_ref::<&str>().map(|s| s.to_string())).unwrap_or_default();
+            println!("STFLOOM-PANIC message={}", msg);
+            std::panic::resume_unwind(e);
+        }
+    };
     rayon::SELECTED.store(-1, Ordering::Relaxed);
     match r {
         Err(_) => "rejected".into(),
@@ -162,6 +169,90 @@ fn run(name: &'static str, bound: Option<usize>) {
     );
 }
 
+/// Two callers in one process (a node's mempool and its block validation, two chains in one node): each loom thread owns a chain
+/// of its own - the fee multipliers differ - and applies the same two transactions to it, twice.  What one caller validates must
+/// not reach the other's verdicts: every verdict equals the one a caller alone gets (computed by running the callers one after
+/// the other in a model of their own).
+fn run_two_callers(bound: Option<usize>) {
+    fn chain(mult: u128) -> UnsealedState<InMemoryCas> {
+        let db = Database::new(InMemoryCas::default());
+        GenesisConfig { network: NetID::Custom02, init_coindata: out(10_000_000, Denom::Mel), stakes: BTreeMap::new(), init_fee_pool: CoinValue(0), init_fee_multiplier: mult }.realize(&db).seal(None).next_unsealed()
+    }
+    // T pays more than the minimum at the low multiplier and less than the minimum at the high one; U pays enough for both
+    fn txs() -> Vec<Transaction> {
+        let mut t = tx(TxKind::Normal, vec![CoinID::zero_zero()], vec![out(10_000_000 - 3_000, Denom::Mel)], vec![0x2c]);
+        t.fee = CoinValue(3_000);
+        let mut u = tx(TxKind::Normal, vec![CoinID::zero_zero()], vec![out(10_000_000 - 900_000, Denom::Mel)], vec![0x2d]);
+        u.fee = CoinValue(900_000);
+        vec![t, u]
+    }
+    fn caller(mult: u128) -> Vec<String> {
+        let st = chain(mult);
+        let mut v = vec![];
+        for round in 0..2 {
+            for (i, t) in txs().iter().enumerate() {
+                let mut c = st.clone();
+                let r = match std::panic::catch_unwind(std::panic::AssertUnwindSafe(|| c.apply_tx(t))) {
+                    Ok(r) => r,
+                    Err(e) => {
+                        println!("STFLOOM-PANIC message=caller with multiplier {} panicked", mult);
+                        std::panic::resume_unwind(e);
+                    }
+                };
+                v.push(match r {
+                    Ok(()) => {
+                        let h = c.seal(None).header();
+                        format!("round{}/tx{}:accepted:{}:{}", round, i, h.fee_pool.0, h.hash())
+                    }
+                    Err(_) => format!("round{}/tx{}:rejected", round, i),
+                });
+            }
+        }
+        v
+    }
+    let mults: [u128; 2] = [65_536, 65_536 * 400];
+    let alone: &'static Mutex<Vec<Vec<String>>> = Box::leak(Box::new(Mutex::new(vec![])));
+    for m in mults {
+        loom::model(move || big_stack(move || alone.lock().unwrap().push(caller(m))));
+    }
+    let want: &'static Vec<Vec<String>> = Box::leak(Box::new(alone.lock().unwrap().clone()));
+    let mut b = loom::model::Builder::new();
+    b.preemption_bound = bound;
+    b.max_branches = 200_000;
+    b.check(move || {
+        EXECUTIONS.fetch_add(1, Ordering::Relaxed);
+        let hs: Vec<_> = mults
+            .iter()
+            .enumerate()
+            .map(|(k, m)| {
+                let m = *m;
+                loom::thread::Builder::new()
+                    .stack_size(1 << 20)
+                    .spawn(move || {
+                        let got = caller(m);
+                        if got != want[k] {
+                            let first = got.iter().zip(want[k].iter()).find(|(a, b)| a != b).map(|(a, b)| format!("{} (alone: {})", a, b)).unwrap_or_default();
+                            println!("STFLOOM-MISMATCH scenario=two-callers site=- cuts=- got=differs want=alone caller_with_multiplier={} first_difference={}", m, first.replace(' ', "_"));
+                            panic!("mismatch");
+                        }
+                    })
+                    .expect("spawn")
+            })
+            .collect();
+        for h in hs {
+            h.join().expect("caller");
+        }
+    });
+    let accepted = want.iter().flatten().filter(|v| v.contains(":accepted:")).count();
+    println!(
+        "STFLOOM scenario=two-callers transactions=2 reference={}-of-{}-accepted sites=0 cut_patterns=1 models=1 models_with_a_parallel_site=1 executions={} preemption_bound={} ok",
+        accepted,
+        want.iter().flatten().count(),
+        EXECUTIONS.load(Ordering::Relaxed),
+        bound.map(|b| b.to_string()).unwrap_or_else(|| "none".into())
+    );
+}
+
 fn main() {
     let args: Vec<String> = std::env::args().collect();
     match args.get(1).map(|s| s.as_str()) {
@@ -178,7 +269,11 @@ fn main() {
                 Some(n) => Some(n.parse().expect("bound")),
             };
             let t0 = std::time::Instant::now();
-            run(name, bound);
+            if name == "two-callers" {
+                run_two_callers(bound);
+            } else {
+                run(name, bound);
+            }
             eprintln!("wall_ms={}", t0.elapsed().as_millis());
         }
         _ => {
